@@ -31,7 +31,10 @@ EXPLANATION = (
     "scalar types; R13.4 the swizzle validator passes the mask *text* and the component count of the swizzled type, the mask "
     "helper tests the full alphabet, both letter families, mixing, and the count; R13.5 all six validation visitors clear "
     "their flag on every error they swallow and return it; R13.6 signed literals reach the bounds check as literals; R13.7 the "
-    "three validators visit every expression node (explicit handlers keep traversing, fields that can hold an access are traversed)."
+    "three validators visit every expression node (explicit handlers keep traversing, fields that can hold an access are traversed). "
+    "R13.4 also: ValidateSwizzleMask folded over 296 (mask, component count) pairs rejects exactly unknown letters, missing "
+    "components and mixed families. R13.5 also: no handler of a validator or of the typing pass returns before its traversal "
+    "calls, or makes one depend on more than the presence / kind of a child."
 )
 NOT_DECIDED = "the arithmetic of the comparisons on every concrete size (covered by the grid abstraction up to size 6); masks longer than 4 letters"
 ASSUMPTIONS = ["GetSize() of array/vector/matrix types returns a tuple whose first entry is the leading dimension (checked: R13.2)"]
